@@ -84,7 +84,13 @@ def f_pairself(x):
     return [x, x]
 
 
-APPLY = {"wrap": f_wrap, "tostr": f_tostr, "isnone": f_isnone, "pairself": f_pairself}
+def f_boomnone(x):
+    if x is None:
+        raise CustomError("apply:boomnone")
+    return ("b", freeze(x))
+
+
+APPLY = {"wrap": f_wrap, "tostr": f_tostr, "isnone": f_isnone, "pairself": f_pairself, "boomnone": f_boomnone}
 
 
 def step_pair(x, p):
